@@ -443,8 +443,10 @@ pub fn run_fault(ctx: &Ctx, case: &Case, base: &std::path::Path, k: u64, sticky:
     let mut m = TreeModel::new(case.depth, Fr::from(0u64));
     let mut taint = Taint::default();
     let mut class = "fault-not-reached";
+    let mut retried = false;
     for (idx, op) in case.ops.iter().enumerate() {
         let fired_before = hk::tl_fired();
+        let ops_before = hk::tl_ops();
         let rop = op.resolve(&m);
         let observed_mark = st.bm().leaves_set();
         let desc = rop.describe();
@@ -492,6 +494,33 @@ pub fn run_fault(ctx: &Ctx, case: &Case, base: &std::path::Path, k: u64, sticky:
                 advance(&mut m, &rop);
             }
             Applied::Err(e) => {
+                // every other one-shot fault position: the caller retries the identical request once
+                // the storage works again. If that retry is acknowledged, the request counts as applied
+                // and nothing may remain of the half-done attempt (appends are not retried: a failed
+                // append may already have advanced the in-memory leaf count, which the statement
+                // leaves open)
+                // known finding (external pmtree crate): a range / batch write that extends the leaf
+                // count performs two storage operations (nodes, then the leaf count); the in-memory leaf
+                // count is advanced before the second one, so when only that one fails a retry finds
+                // nothing to do for the count and the stored count stays behind for good
+                let extends = {
+                    let mut next = m.clone();
+                    rop.apply_model(&mut next) != Verdict::Rejected && next.mark > m.mark
+                };
+                let in_count_put = matches!(rop, ROp::SetRange(..) | ROp::Batch(..)) && extends && k >= ops_before + 1;
+                let kf_sig = format!("{}/fault/batch-leaf-count-put/retry", st.bm().kind().name());
+                let skip_retry = in_count_put && ctx.is_known(&kf_sig);
+                if skip_retry && fired && !sticky && k % 2 == 0 {
+                    o.exclude(kf_sig.clone());
+                }
+                if fired && !sticky && k % 2 == 0 && !skip_retry && !matches!(rop, ROp::Append(_) | ROp::Reopen) {
+                    if let Applied::Ok = apply_plain(ctx, &mut st, &m, &rop) {
+                        advance(&mut m, &rop);
+                        class = "fault-then-acknowledged-retry";
+                        retried = true;
+                        continue;
+                    }
+                }
                 if fired {
                     taint.add_op(&rop, &m, observed_mark);
                     class = match &rop {
@@ -538,7 +567,13 @@ pub fn run_fault(ctx: &Ctx, case: &Case, base: &std::path::Path, k: u64, sticky:
     let n = if taint.any {
         compare_tainted(st.bm(), &[&m], &taint).map_err(|e| format!("fault at storage operation {} ({class}{}): {e}", k + 1, if sticky { ", sticky" } else { "" }))?
     } else {
-        compare(st.bm(), &m, FOCUS, &[]).map_err(|e| format!("fault position {} beyond the history: {e}", k + 1))?
+        compare(st.bm(), &m, FOCUS, &[]).map_err(|e| {
+            if retried {
+                format!("storage operation {} failed, the identical request was retried and acknowledged, the rest of the history ran without faults; after flush + reopen: {e}", k + 1)
+            } else {
+                format!("fault position {} beyond the history: {e}", k + 1)
+            }
+        })?
     };
     o.evals += n;
     st.close();
@@ -772,7 +807,7 @@ impl Property for C16 {
     fn rule(&self) -> String {
         "generated (history over {set, delete, append, set_range, batch, set_metadata, flush, flush+drop+reopen}, storage configuration {cache size, flush period, mode, compression, path shape}, API surface {PmTree trait, RLN byte API}, depth 3..6/10/20). \
          Every case: no-fault run against the ideal model with observation after every step, forced final reopen + three more operations + reopen. \
-         FaultAll/FaultAt: the history is re-run on a fresh directory with the storage adapter hook failing storage operation k+1 (one-shot or sticky) for every k < K (K counted by the hook in the no-fault run; stratified to a fixed maximum when K is large): the call in which the failure fires must return Err (not Ok, not panic), and after clearing the fault, flush, drop and reopen every position holds its acknowledged value (positions targeted by the failed request: acknowledged or requested value), leaves_set >= acknowledged mark, metadata acknowledged or requested. \
+         FaultAll/FaultAt: the history is re-run on a fresh directory with the storage adapter hook failing storage operation k+1 (one-shot or sticky) for every k < K (K counted by the hook in the no-fault run; stratified to a fixed maximum when K is large): the call in which the failure fires must return Err (not Ok, not panic); at every other one-shot position the identical request is retried (appends excepted) and, if acknowledged, the rest of the history runs and the reopened tree must equal the ideal tree completely (root included); otherwise, after clearing the fault, flush, drop and reopen every position holds its acknowledged value (positions targeted by the failed request: acknowledged or requested value), leaves_set >= acknowledged mark, metadata acknowledged or requested. \
          Crash: the history runs in a child process that abort()s inside storage operation k+1; after reopening, every position holds a value it had at some acknowledged state since the last acknowledged flush (or the interrupted request's value). \
          evaluations = observations compared; one case = one history with all its fault/crash runs. \
          non-trivial = (history with a reopen and a later write) or (a fault / crash that fired inside a range write, batch, flush or metadata write); distinct by case content".into()
@@ -848,7 +883,7 @@ impl Property for C16 {
                     Ok(class) => {
                         o.label(class);
                         o.count(format!("run/{class}"), 1);
-                        if matches!(class, "fault-in-range-write" | "fault-in-batch" | "fault-in-flush" | "fault-in-metadata" | "crash-in-multi-write" | "crash-in-flush") {
+                        if matches!(class, "fault-in-range-write" | "fault-in-batch" | "fault-in-flush" | "fault-in-metadata" | "crash-in-multi-write" | "crash-in-flush" | "fault-then-acknowledged-retry") {
                             o.nontrivial = true;
                         }
                     }
